@@ -72,6 +72,9 @@ type accSpec struct {
 	Services []svcSpec `json:"services,omitempty"` // added after the constructor's own services
 	Flags    []flagOp  `json:"flags,omitempty"`
 	Readd    int       `json:"readd_of,omitempty"` // >0: add the object built for entry Readd-1 a second time
+	// LinkFirst: services are linked / flagged BEFORE they are added to the accessory (an application may do
+	// either; linking after adding is what the library's own constructors do)
+	LinkFirst bool `json:"link_first,omitempty"`
 }
 
 type recipe struct {
@@ -114,6 +117,7 @@ func assemble(sp accSpec) (acc *accessory.Accessory, skipped int) {
 		}
 		acc = a
 	}
+	var pending []*service.Service
 	for _, ss := range sp.Services {
 		var s *service.Service
 		if ss.Ctor == "custom" {
@@ -144,14 +148,19 @@ func assemble(sp accSpec) (acc *accessory.Accessory, skipped int) {
 			}
 			s.AddCharacteristic(ch)
 		}
-		acc.AddService(s)
+		if sp.LinkFirst {
+			pending = append(pending, s)
+		} else {
+			acc.AddService(s)
+		}
 	}
-	n := len(acc.Services)
+	all := append(append([]*service.Service{}, acc.Services...), pending...)
+	n := len(all)
 	for _, f := range sp.Flags {
 		if n == 0 {
 			break
 		}
-		s := acc.Services[mod(f.Svc, n)]
+		s := all[mod(f.Svc, n)]
 		if s == nil {
 			continue
 		}
@@ -162,12 +171,15 @@ func assemble(sp accSpec) (acc *accessory.Accessory, skipped int) {
 			s.Primary = true
 		}
 		for _, l := range f.Linked {
-			o := acc.Services[mod(l, n)]
+			o := all[mod(l, n)]
 			if o == nil || o == s {
 				continue
 			}
 			s.AddLinkedService(o)
 		}
+	}
+	for _, s := range pending {
+		acc.AddService(s)
 	}
 	return acc, skipped
 }
@@ -1025,6 +1037,7 @@ func (g *gen) randAcc(rnd *rand.Rand) accSpec {
 			}
 		}
 		a.Flags = g.randFlags(rnd, 2+len(a.Services))
+		a.LinkFirst = rnd.Intn(2) == 0
 		return a
 	}
 	a.Ctor = "New"
@@ -1047,6 +1060,7 @@ func (g *gen) randAcc(rnd *rand.Rand) accSpec {
 		}
 	}
 	a.Flags = g.randFlags(rnd, 1+n)
+	a.LinkFirst = rnd.Intn(2) == 0
 	return a
 }
 
@@ -1153,6 +1167,9 @@ func (g *gen) fixedRecipes() []*recipe {
 		many.Flags = append(many.Flags, f)
 	}
 	out = append(out, &recipe{Kind: "same-service-type-60x", Accs: []accSpec{many, many}})
+	manyFirst := many
+	manyFirst.LinkFirst = true
+	out = append(out, &recipe{Kind: "same-service-type-60x-linked-before-added", Accs: []accSpec{manyFirst, many}})
 	// sweep: every service constructor
 	sweep := &recipe{Kind: "service-sweep"}
 	for i := 0; i < len(g.svcs); i += 6 {
